@@ -156,6 +156,10 @@ impl<'a> Lx<'a> {
                 return self.err(start, "unfinished long bracket");
             }
             let c = self.peek(0);
+            // stock Lua 5.1 (LUA_COMPAT_LSTR, on by default) refuses another `[[` inside a level-0 long bracket
+            if c == b'[' && level == 0 && self.mode == Mode::Lua51 && self.s.get(self.i + 1) == Some(&b'[') {
+                return self.err(self.i, "nesting of [[...]] is deprecated");
+            }
             if c == b']' {
                 let mut j = self.i + 1;
                 let mut l = 0;
